@@ -35,7 +35,7 @@ class Ctx:
             self.ob = P.stage_obligations(self.ws, self.ds, self.verdicts, self.xl)
             self.dec = P.stage_decisions(self.ws, self.ds)['decisions']
             self.beh = P.stage_behaviour(self.ws, self.ds, self.verdicts, self.xl)
-            self.extra = P.stage_extra(self.ws, self.ds, self.verdicts, self.xl, self.dec)
+            self.extra = P.stage_extra(self.ws, self.ds, self.verdicts, self.xl, self.dec, self.beh.get('api_mismatch', {}))
         finally:
             self.ws.unlock()
         self.by_name = {d['name']: d for d in self.ds}
@@ -276,7 +276,12 @@ def check_property(pid, tier, seed):
     obs = collect(ctx, pid)
     failing = [o for o in obs if not o['ok']]
     reported = set()
-    for o in failing[:4]:
+    api = ctx.beh.get('api_mismatch', {})
+    searched = 0
+    seen_decl = set()
+    for o in failing:
+        if len(violations) >= 12:
+            break
         d = ctx.by_name[o['decl']]
         if o['label'] == 'verdict':
             payload = {'property': pid, 'kind': 'verdict', 'declaration': '\n'.join(D.rust_decl(d)), 'decl_json': d,
@@ -286,17 +291,33 @@ def check_property(pid, tier, seed):
                                else 'it is rule-valid but is rejected' if o['valid'] and not o['real'] else 'model and rule disagree')}
             violations.append((write_replay(pid, payload), '' if o['real'] != o['valid'] else ' no-failing-input-found'))
             continue
-        w = directed_search(ctx, d, o['label']) if d['kind'] == 'bitfield' else None
         payload = {'property': pid, 'kind': 'obligation', 'obligation': '%s %s' % (o['decl'], o['label']),
                    'declaration': '\n'.join(D.rust_decl(d)), 'decl_json': d,
                    'deps': [ctx.by_name[n] for n in sorted(P.deps_of(d))],
-                   'note': 'the reflective check of the real expansion against Spec.v fails'}
+                   'note': 'the reflective check of the real expansion against the model fails'}
+        if o['decl'] in api:
+            payload['witness'] = {'what': 'a program that uses the declaration through the API its declaration calls for no longer compiles',
+                                  'rustc': api[o['decl']][:3]}
+            violations.append((write_replay(pid, payload), ''))
+            continue
+        w = None
+        if d['kind'] == 'bitfield' and searched < 10 and (o['decl'], o['label']) not in seen_decl:
+            searched += 1
+            seen_decl.add((o['decl'], o['label']))
+            w = directed_search(ctx, d, o['label'])
         if w is not None:
             payload['witness'] = w
             violations.append((write_replay(pid, payload), ''))
             reported.add((w['decl'], w.get('field'), w.get('op')))
         else:
             violations.append((write_replay(pid, payload), ' no-failing-input-found'))
+    # declarations dropped from the runner because their API changed, when this property is about that API
+    for name, msgs in list(api.items())[:4]:
+        d = ctx.by_name[name]
+        if (d['kind'] == 'enum' and pid in ('C07',)) or (d['kind'] == 'bitfield' and pid in ('C17',)):
+            violations.append((write_replay(pid, {'property': pid, 'kind': 'api', 'declaration': '\n'.join(D.rust_decl(d)), 'decl_json': d,
+                                                  'witness': {'what': 'a program using the documented API of this declaration does not compile',
+                                                              'rustc': msgs[:3]}}), ''))
     # 3. behavioural correspondence (compiled code, both profiles, vs eval of the translation vs Spec.v)
     bm = [m for m in ctx.beh['mismatches'] if beh_selected(ctx, pid, m)]
     if pid in ('C07', 'C10'):
@@ -367,6 +388,7 @@ def check_property(pid, tier, seed):
     }
     os.makedirs(os.path.join(P.VERIF, 'evidence'), exist_ok=True)
     json.dump(ev, open(os.path.join(P.VERIF, 'evidence', pid + '.json'), 'w'), indent=1)
+    violations.sort(key=lambda v: v[1] != '')      # concrete failing inputs first
     for path, suffix in violations:
         print('VIOLATION property=%s replay=%s%s' % (pid, path, suffix))
     if not violations:
